@@ -45,7 +45,7 @@ def observe(cli, text, root):
     args = [cli, "-f", p]
     for l in LANGS:
         args += [FLAG[l], os.path.join(root, "out_" + l)]
-    r = run(args, timeout=60)
+    r = run(args, timeout=240)
     out = r.stdout + "\n" + r.stderr
     diags = [{"line": int(m.group(1)), "classes": classes_of(m.group(3)), "text": m.group(3)[:120]} for m in DIAG.finditer(out)]
     if "syntax errors found" in out:
